@@ -191,6 +191,10 @@ m("first-ts-check-dropped", "chartparse/sync.py",
 m("defaultdict-returned", "chartparse/chart.py",
   "metadata, global_events_track, sync_track, InstrumentTrackMap(dict(instrument_tracks))",
   "metadata, global_events_track, sync_track, instrument_tracks", ["C19"])
+m("unfrozen-star-power-event", "chartparse/instrument.py",
+  "@typ.final\n@dataclasses.dataclass(kw_only=True, frozen=True)\nclass StarPowerEvent(SpecialEvent):", "@typ.final\nclass StarPowerEvent(SpecialEvent):", ["C19"])
+m("unfrozen-lyric-event", "chartparse/globalevents.py",
+  "@typ.final\n@dataclasses.dataclass(kw_only=True, frozen=True)\nclass LyricEvent(GlobalEvent):", "@typ.final\nclass LyricEvent(GlobalEvent):", ["C19"])
 m("import-cycle", "chartparse/track.py",
   "from chartparse.tick import Ticks\n", "from chartparse.tick import Ticks\nfrom chartparse.instrument import StarPowerEvent, TrackEvent  # noqa\n", ["C20"])
 # ---- neutral refactors: must not raise any alarm
